@@ -117,6 +117,8 @@ func handle(line string) string {
 			return "BADREQ"
 		}
 		return exprPosRun(string(b))
+	case "QUERY": // Task X (harness/querychan.go)
+		return queryServe(f)
 	case "TYPE":
 		if len(f) != 2 {
 			return "BADREQ"
